@@ -188,20 +188,22 @@ theorem compress_check_sound (values : List Int) (maxSize : Nat) (table : List I
     CompressSpec values maxSize table m :=
   checkCompress_sound values maxSize table m h
 
-/-- **compress_spec.** For every list of values (any length, duplicates allowed) in
-`[-2^30, 2^30)` (so that no `i32` operation of the Rust code overflows; fix_words of a font lie
-in `[-2^24, 2^24)`) and every class limit `maxSize ≥ 1`, the model of `compress` — early exit,
-binary search with the `delta_lower`/`delta_upper` jumps and the early `break`, 64 iterations of
-fuel, final loop — does not panic and its result satisfies `CompressSpec`: at most `maxSize`
-classes, every value within half the tolerance of its representative, and the tolerance is the
-smallest for which *any* `maxSize` intervals cover the values. -/
+/-- **compress_spec.** For every list of 32-bit values (any length, duplicates allowed, the
+whole `i32` range: since /repo 3d2d8d9 the search and the midpoints are computed in `i64`) and
+every class limit `maxSize ≥ 1`, the model of `compress` — early exit, binary search with the
+`delta_lower`/`delta_upper` jumps and the early `break`, 64 iterations of fuel, final loop with
+the `try_into().expect(…)` of the midpoint — does not panic and its result satisfies
+`CompressSpec`: at most `maxSize` classes, every value within half the tolerance of its
+representative, and the tolerance is the smallest for which *any* `maxSize` intervals cover
+the values. -/
 theorem compress_spec (values : List Int) (maxSize : Nat) (hmax : 1 ≤ maxSize)
-    (hr : ∀ v ∈ values, -1073741824 ≤ v ∧ v < 1073741824) :
+    (hr : ∀ v ∈ values, -2147483648 ≤ v ∧ v ≤ 2147483647) :
     ∃ table m, compress values maxSize = .ok (table, m) ∧ CompressSpec values maxSize table m :=
   compress_meets_spec values maxSize hmax hr
 
-/-- Outside the guard the Rust code can overflow (`last - first`): a panic, not a wrong table. -/
-example : compress [-2147483648, 2147483647] 1 = .panic := by decide
+/-- The extremes of the `i32` range (a panic before /repo 3d2d8d9) are handled. -/
+example : compress [-2147483648, 2147483647] 1 =
+    .ok ([0, 0], [(-2147483648, 1), (2147483647, 1)]) := by decide
 
 /-- Non-vacuity: the documented example `[1, 4, 5]` with one class more than allowed. -/
 example : compress [1, 4, 5, 100, 101] 2 = .ok ([0, 3, 100], [(1, 1), (4, 1), (5, 1), (100, 2), (101, 2)]) := by
